@@ -822,8 +822,15 @@ where
     P: AsRef<Path>,
 {
     let file = log::open(utils::hintfile_name(&path, fileid))?;
+    // A hint entry is only an index into the data file: after a power failure the data file may
+    // have lost a tail that the hint file still describes. Never trust an entry that points past
+    // the end of the data file (the entries that follow it point even further).
+    let datafile_len = fs::metadata(utils::datafile_name(&path, fileid))?.len();
     let mut hintfile_iter = LogIterator::new(file)?;
     while let Some((_, entry)) = hintfile_iter.next::<HintFileEntry>()? {
+        if entry.pos.checked_add(entry.len).map_or(true, |end| end > datafile_len) {
+            break;
+        }
         let keydir_entry = KeyDirEntry {
             fileid,
             len: entry.len,
